@@ -66,6 +66,8 @@ PROGRAMS = [
     # 50-51: nodes whose end has to be carried up the parent chain over several lines
     "match s:\n    case 'go', 'north' | \\\n            'south' | \\\n            'east':\n        pass",
     "match s:\n    case 1:\n        with a:\n            b\n        c\n        d",
+    # 52: strings spread over several source lines by backslash-newline only (no line break in the value) in (non-)docstring position
+    "class G:\n    def m(self):\n        \"\"\"Return \\\n        more.\"\"\"\n        s = 'p \\\n        q'\n        'r \\\n        t'\n        return s",
 ]
 
 for _p in PROGRAMS:
